@@ -31,12 +31,20 @@ VerdictBytes(t) ==
     ELSE IF \E i \in 1..Len(t.items) : ~ItemConforms(t.items[i]) THEN "drift:encoding"
     ELSE "ok"
 
+(* the key keeps its own general token next to a number, a letter or a string:
+   observed tokens = reference tokens, and the reference has the key token in place *)
+CtxOK(key, c) ==
+    LET want == Lex(c.pre) \o <<Tok("general", key)>> \o Lex(c.post)
+    IN c.err = "" /\ c.toks = want /\ Lex(c.pre \o key \o c.post) = want
+
 VerdictKey(t) ==
     IF \E i \in 1..Len(t.key) : ~InCodepage(t.key[i]) THEN "violation:not-in-codepage"
     ELSE IF t.err # "" \/ t.toks # <<Tok("general", t.key)>> THEN "violation:not-one-token"
     ELSE IF t.table = "elements" /\ t.tree # <<Gen(Tok("general", t.key))>> THEN "violation:shadowed-by-syntax"
     ELSE IF t.table = "modifiers" /\ ~t.inparser THEN "violation:modifier-unknown-to-parser"
+    ELSE IF \E i \in 1..Len(t.ctxs) : ~CtxOK(t.key, t.ctxs[i]) THEN "violation:not-one-token-in-context"
     ELSE IF t.nocc > 1 THEN "violation:duplicate-key"
+    ELSE IF t.table = "elements" /\ t.nocc = 1 /\ t.arity # t.runarity THEN "violation:table-arity-differs-from-source"
     ELSE IF ~LexesAsOneToken(t.key) THEN "drift:spec-lexer"
     ELSE IF t.table = "elements" /\ ~ParsesAsElement(t.key) THEN "drift:spec-parser"
     ELSE "ok"
